@@ -211,6 +211,131 @@ def producer_rules(ctx):
     formulas.rule_level_range(ctx, f"{P}.LEVEL-RANGE", cv, attr="max_level")
 
 
+def nfields_key_order(ctx):
+    """keys of CheckpointReader's `self.nfields` in insertion order (dict literal, then stores in loops over literal
+    lists) - the order a loop over that dict follows"""
+    ini = ctx.prog.func(CR, "CheckpointReader.__init__", P)
+    keys = []
+
+    def add(k):
+        if k not in keys:
+            keys.append(k)
+
+    def scan(stmts, env):
+        for s in stmts:
+            if isinstance(s, ast.Assign):
+                for t in s.targets:
+                    if norm(t) == "self.nfields" and isinstance(s.value, ast.Dict):
+                        for k in s.value.keys:
+                            if isinstance(k, ast.Constant):
+                                add(k.value)
+                    for e in ([t] if not isinstance(t, (ast.Tuple, ast.List)) else list(ast.walk(t))):
+                        if isinstance(e, ast.Subscript) and norm(e.value) == "self.nfields":
+                            k = e.slice
+                            if isinstance(k, ast.JoinedStr) and len(k.values) == 1 and isinstance(k.values[0], ast.FormattedValue):
+                                k = k.values[0].value
+                            if isinstance(k, ast.Constant):
+                                add(k.value)
+                            elif isinstance(k, ast.Name) and k.id in env:
+                                add(env[k.id])
+                            else:
+                                return False
+            elif isinstance(s, ast.For):
+                if isinstance(s.target, ast.Name) and isinstance(s.iter, (ast.List, ast.Tuple)) and \
+                        all(isinstance(x, ast.Constant) for x in s.iter.elts):
+                    for x in s.iter.elts:
+                        if scan(s.body, {**env, s.target.id: x.value}) is False:
+                            return False
+                elif scan(s.body, env) is False:
+                    return False
+            elif isinstance(s, (ast.With, ast.If, ast.Try)):
+                for blk in (getattr(s, "body", []), getattr(s, "orelse", []), getattr(s, "finalbody", [])):
+                    if scan(blk, env) is False:
+                        return False
+        return True
+    if scan(ini.node.body, {}) is False or not keys:
+        return None
+    return keys
+
+
+def evaluate_names_and_count(ctx, fi):
+    """COMPONENT-ORDER / COUNT decided by evaluation (vk/miniev.py): the statements of chk2plt.__init__ that build
+    `self.fields_out` and `self.nfields_out` are run for the four (gradp, reactions) configurations over symbolic
+    species and field counts; the result must be the worker's concatenation order state ++ gradp ++ I_R.
+    Returns None when the code uses a form the evaluator does not model (the shape rule then speaks)."""
+    from vk import miniev
+    site = fi.site
+    keys = nfields_key_order(ctx)
+    if keys is None:
+        return None
+    # the local list that becomes self.fields_out and everything aliasing it are protected: a statement touching them
+    # that cannot be evaluated makes the evaluation undecided
+    protected = {"self.fields_out", "self.nfields_out"}
+    for n in walk_no_nested(fi.node):
+        if isinstance(n, ast.Assign) and norm(n.targets[0]) == "self.fields_out" and isinstance(n.value, ast.Name):
+            protected.add(n.value.id)
+    results = {}
+    for g in (False, True):
+        for r in (False, True):
+            m = miniev.Machine(config={"self.do_gradp": g, "self.do_species_reactions": r},
+                               attrs={"self.nfields": {k: miniev.Sym(f"nfields[{k}]") for k in keys}})
+            try:
+                for s in fi.node.body:
+                    try:
+                        m.stmt(s)
+                    except miniev.Unsupported as e:
+                        touched = {norm(x) for x in ast.walk(s) if isinstance(x, (ast.Name, ast.Attribute))}
+                        if touched & protected:
+                            raise
+                        for t in ast.walk(s):
+                            if isinstance(t, ast.Name) and isinstance(t.ctx, ast.Store):
+                                m.env[t.id] = miniev.Sym(t.id)
+                            elif isinstance(t, ast.Attribute) and isinstance(t.ctx, ast.Store) and norm(t) not in m.config:
+                                m.env[norm(t)] = miniev.Sym(norm(t))
+                                m.attrs[norm(t)] = miniev.Sym(norm(t))
+                    if "self.fields_out" in m.env and "self.nfields_out" in m.env:
+                        break
+            except miniev.Unsupported as e:
+                ctx.info(f"{P}.COMPONENT-ORDER", site, f"name list not evaluable ({e}); the statement-shape rule decides")
+                return None
+            if "self.fields_out" not in m.env or "self.nfields_out" not in m.env:
+                return None
+            results[(g, r)] = (m.env["self.fields_out"], m.env["self.nfields_out"])
+    E = miniev.Each
+    ok_names, ok_count = True, True
+    witness = ""
+    for (g, r), (names, count) in sorted(results.items()):
+        exp = ["x_velocity", "y_velocity", "z_velocity", "density", E("Y({self.species})", "self.species"),
+               "rhoh", "temp", "RhoRT"]
+        if g:
+            exp += ["gradpx", "gradpy", "gradpz"]
+        if r:
+            exp += [E("I_R({self.species})", "self.species")]
+        if not isinstance(names, list):
+            return None
+        if names != exp:
+            ok_names = False
+            witness = witness or (f"with gradp={g}, species_reactions={r} the names are {names!r}; the worker writes "
+                                  f"state ++ gradp ++ I_R, i.e. {exp!r}")
+        ec = miniev.Lin({"nfields[state]": 1, "nfields[gradp]": int(g), "nfields[I_R]": int(r)})
+        try:
+            same = miniev.Lin.of(count) == ec
+        except miniev.Unsupported:
+            return None
+        if not same:
+            ok_count = False
+            witness = witness or f"with gradp={g}, species_reactions={r} nfields_out = {count!r}, expected {ec!r}"
+    ctx.check(ok_names, f"{P}.COMPONENT-ORDER", site,
+              "evaluated for the 4 flag configurations: names are velocity, density, Y(species), rhoh, temp, RhoRT, then "
+              "gradp iff do_gradp, then I_R(species) iff do_species_reactions - the worker's concatenation order "
+              f"(iteration order of self.nfields taken from the reader: {keys})",
+              "the output names do not follow the order in which the worker concatenates the data: " + witness +
+              " - every component after the first difference is stored under another component's name",
+              where=loc(fi, fi.node), semantic=True)
+    ctx.check(ok_count, f"{P}.COUNT", site, "evaluated: nfields_out = state + gradp (iff) + I_R (iff)", witness, semantic=True)
+    return True
+
+
 def fields_rules(ctx):
     """component names in the order the worker concatenates them, under the same flags; count"""
     fi = ctx.prog.func(CK, "chk2plt.__init__", P)
@@ -230,10 +355,12 @@ def fields_rules(ctx):
            ("loop", "['rhoh', 'temp', 'RhoRT']", "fields.append(f)"),
            ("if", "self.do_gradp", [("['gradpx', 'gradpy', 'gradpz']", "fields.append(f)")]),
            ("if", "self.do_species_reactions", [("self.species", "fields.append(f'I_R({sp})')")])]
-    ctx.check(seq == exp, f"{P}.COMPONENT-ORDER", site,
-              "names: velocity, density, Y(species), rhoh, temp, RhoRT; then gradp iff do_gradp; then I_R(species) iff "
-              "do_species_reactions — the order in which the worker concatenates state ++ gradp ++ I_R",
-              f"fields_out is built as {seq}", where=loc(fi, fi.node))
+    evaluated = evaluate_names_and_count(ctx, fi)
+    if evaluated is None:
+        ctx.check(seq == exp, f"{P}.COMPONENT-ORDER", site,
+                  "names: velocity, density, Y(species), rhoh, temp, RhoRT; then gradp iff do_gradp; then I_R(species) iff "
+                  "do_species_reactions — the order in which the worker concatenates state ++ gradp ++ I_R",
+                  f"fields_out is built as {seq}", where=loc(fi, fi.node))
     # species names come from ONE family of reference fields at a time (Y(...), or I_R(...) as a fallback): a pattern
     # that matches both families lists every species twice and the conversion is refused
     pats = [c.args[0].value for c in walk_no_nested(fi.node) if isinstance(c, ast.Call)
@@ -263,7 +390,8 @@ def fields_rules(ctx):
             nf.append((norm(n.test), [norm(b) for b in n.body]))
     exp_nf = [("base", "self.nfields['state']"), ("self.do_gradp", ["self.nfields_out += self.nfields['gradp']"]),
               ("self.do_species_reactions", ["self.nfields_out += self.nfields['I_R']"])]
-    ctx.check(nf == exp_nf, f"{P}.COUNT", site, "nfields_out = state + gradp (iff) + I_R (iff)", f"nfields_out is {nf}")
+    if evaluated is None:
+        ctx.check(nf == exp_nf, f"{P}.COUNT", site, "nfields_out = state + gradp (iff) + I_R (iff)", f"nfields_out is {nf}")
     guard = [n for n in fi.node.body if isinstance(n, ast.If) and norm(n.test) == "len(self.fields_out) != self.nfields_out"
              and rules.always_raises(n.body)]
     ctx.check(bool(guard), f"{P}.COUNT", site, "names/count disagreement raises before converting",
